@@ -100,6 +100,7 @@ type HStep struct {
 	Rename uint64  `json:"rename,omitempty"`      // with Acts: rename one label IN PLACE in the slice passed by an earlier fix-up and pass that same slice again (as demo/Demo.go does with NAMES)
 	BadKey *string `json:"bad_key,omitempty"`     // a malformed query whose panic is recovered
 	Why    string  `json:"why,omitempty"`
+	Quiet  bool    `json:"quiet,omitempty"` // no query of any kind between this step and the next one (fix-ups applied back to back)
 }
 
 // Act is one abstract fix-up segment.
